@@ -12,7 +12,7 @@ func init() {
 }
 
 var sqlLeafForms = []int{lfEqStr, lfEqInt, lfGt, lfGe, lfLt, lfLe, lfRangeIncl, lfRangeExcl, lfRangeLo, lfRangeHi, lfRangeStr, lfList,
-	lfWild, lfQuoted, lfRangeExclStr, lfRangeStrLo, lfRangeStrHi, lfRangeAll, lfRangeExclLo, lfRangeExclHi, lfListInt, lfWildMid, lfRegexp, lfFloat, lfRangeFloat, lfRangeFloatEx, lfRegexpShort, lfSpecialFloat, lfRangeComma, lfEqSpecial, lfEqBig, lfRangeBig, lfRangeMixed, lfQuotedDigits, lfRangeWildLo, lfRangeWildHi, lfWildEsc, lfWildEscWild, lfWildUnderscore, lfWildPunct, lfListMixed, lfWildEscTail, lfNonASCII3, lfWildRun, lfFloatLong, lfGtFloatLong, lfRangeSpecialLo, lfRangeSpecialHi, lfRegexpBackslash}
+	lfWild, lfQuoted, lfRangeExclStr, lfRangeStrLo, lfRangeStrHi, lfRangeAll, lfRangeExclLo, lfRangeExclHi, lfListInt, lfWildMid, lfRegexp, lfFloat, lfRangeFloat, lfRangeFloatEx, lfRegexpShort, lfSpecialFloat, lfRangeComma, lfEqSpecial, lfEqBig, lfRangeBig, lfRangeMixed, lfQuotedDigits, lfRangeWildLo, lfRangeWildHi, lfWildEsc, lfWildEscWild, lfWildUnderscore, lfWildPunct, lfListMixed, lfWildEscTail, lfNonASCII3, lfWildRun, lfFloatLong, lfGtFloatLong, lfRangeSpecialLo, lfRangeSpecialHi, lfRegexpBackslash, lfListNested, lfListLeftNested, lfNumFieldRegexp, lfNumFieldWild, lfRangeQuotedSpace}
 
 var sqlTreeOps = []int{nOr, nAnd, nNot, nMustNot, nMust}
 
@@ -28,7 +28,7 @@ func leafIsInt(lf *leaf) bool {
 // leafEvaluable: forms whose meaning the row evaluator models (no floats, no regexps).
 func leafEvaluable(lf *leaf) bool {
 	switch lf.form {
-	case lfRegexp, lfRegexpShort, lfFloat, lfRangeFloat, lfRangeFloatEx, lfSpecialFloat, lfRangeMixed, lfListMixed, lfRegexpBackslash, lfFloatLong, lfGtFloatLong, lfRangeSpecialLo, lfRangeSpecialHi:
+	case lfRegexp, lfRegexpShort, lfFloat, lfRangeFloat, lfRangeFloatEx, lfSpecialFloat, lfRangeMixed, lfListMixed, lfRegexpBackslash, lfNumFieldRegexp, lfNumFieldWild, lfFloatLong, lfGtFloatLong, lfRangeSpecialLo, lfRangeSpecialHi:
 		return false
 	}
 	return true
@@ -89,7 +89,7 @@ func leafMeaning(lf *leaf, x rowVal) bool {
 		return x.i > lf.i1
 	case lfRangeAll:
 		return true
-	case lfRangeStr, lfRangeComma, lfRangeWildLo, lfRangeWildHi:
+	case lfRangeStr, lfRangeComma, lfRangeWildLo, lfRangeWildHi, lfRangeQuotedSpace:
 		return rtAnd(x.s >= lf.s1, x.s <= lf.s2)
 	case lfRangeExclStr:
 		return rtAnd(x.s > lf.s1, x.s < lf.s2)
@@ -99,6 +99,8 @@ func leafMeaning(lf *leaf, x rowVal) bool {
 		return x.s >= lf.s1
 	case lfList:
 		return rtOr(x.s == lf.s1, x.s == lf.s2)
+	case lfListNested, lfListLeftNested:
+		return rtOr(x.s == lf.s1, rtOr(x.s == lf.s2, x.s == lf.s3))
 	case lfListInt:
 		return rtOr(x.i == lf.i1, x.i == lf.i2)
 	case lfWild, lfWildMid, lfWildEsc, lfWildEscWild, lfWildUnderscore, lfWildPunct, lfWildEscTail, lfWildRun:
@@ -244,6 +246,14 @@ func leafValues(lf *leaf) []qval {
 		return []qval{{s: translatePattern(lf.s1)}}
 	case lfListMixed:
 		return []qval{{isInt: true, i: lf.i1}, {isFlt: true, f: 2.5, fs: "2.5"}}
+	case lfListNested, lfListLeftNested:
+		return []qval{{s: lf.s1}, {s: lf.s2}, {s: lf.s3}}
+	case lfRangeQuotedSpace:
+		return []qval{{s: lf.s1}, {s: lf.s2}}
+	case lfNumFieldRegexp: // the number in field position is rendered as a value
+		return []qval{{isInt: true, i: int(lf.field[0] - '0')}, {s: lf.s1}}
+	case lfNumFieldWild:
+		return []qval{{isInt: true, i: int(lf.field[0] - '0')}, {s: translatePattern(lf.s1)}}
 	case lfRegexp, lfRegexpShort:
 		return []qval{{s: lf.s1}}
 	case lfFloat:
@@ -279,6 +289,9 @@ func treeValues(t *node) []qval {
 func treeFields(t *node) []string {
 	var out []string
 	for _, n := range collect(t, nLeaf, nil) {
+		if n.lf.form == lfNumFieldRegexp || n.lf.form == lfNumFieldWild {
+			continue // a number, not a column
+		}
 		out = append(out, n.lf.field)
 	}
 	return out
@@ -372,7 +385,7 @@ func sqlChecks(t *node, text string, withRows bool) {
 	mixedBounds := false // a range with a number and a string bound: only the confinement clauses (C02) apply
 	for _, n := range collect(t, nLeaf, nil) {
 		switch n.lf.form {
-		case lfRegexp, lfRegexpShort, lfSpecialFloat, lfRegexpBackslash:
+		case lfRegexp, lfRegexpShort, lfSpecialFloat, lfRegexpBackslash, lfNumFieldRegexp, lfNumFieldWild:
 			inFragment = false
 		case lfRangeSpecialLo, lfRangeSpecialHi:
 			inFragment = false
@@ -480,6 +493,7 @@ func sqlChecks(t *node, text string, withRows bool) {
 			row := rowFor(t)
 			ev := &sqlEval{row: row}
 			got := ev.eval(ast)
+			rtAssert("sql-well-typed", !ev.illTyped) // no condition used as a value, no constant used as a condition
 			if ev.bad {
 				rtReach("sql-eval-unsupported")
 			} else {
@@ -652,6 +666,7 @@ func H_IdentConfined() {
 	}
 	psql, params, perr := lucene.ToParameterizedPostgres(q)
 	rtAssert("ident-same-outcome", (err == nil) == (perr == nil))
+	rtAssert("inline-ok-implies-param-ok", err != nil || perr == nil) // C04's direction
 	if perr == nil {
 		rtObserve("psql", psql)
 		ast, np, ok := pgParse(psql)
